@@ -57,6 +57,8 @@ class Engine:
         self.free_bools_init = set()
         self.free_bools = set()
         self.all_pcs = []          # for the partition guard
+        self.stop_fn = None        # exploration may stop early once enough counterexamples are in hand
+        self.stopped = False
 
     # --- solver helpers
     def _check(self, *assump):
@@ -217,6 +219,9 @@ class Engine:
         """yield (pc, (kind, value)) for every feasible path of fn(); kind in {'ok','exc'}"""
         self.work = [[]]
         while self.work:
+            if self.stop_fn is not None and self.stop_fn():
+                self.stopped = True        # only ever used to report violations sooner, never to claim success
+                return
             self.prefix = self.work.pop()
             keep = max(len(self.prefix) - 1, 0)
             keep = min(keep, self.levels)
@@ -253,6 +258,8 @@ class Engine:
 
     def partition_guard(self):
         """the explored path conditions must cover the precondition (needs explore(keep_pcs=True))"""
+        if self.stopped:
+            return
         s = z3.Solver()
         s.set('timeout', SOLVER_TIMEOUT_MS)
         s.add(*self.pre)
